@@ -1,66 +1,213 @@
 /* C35 — private parts of partially shared buffers are transferred exactly.
- * Units (src/smpi/internals/smpi_shared.cpp): shift_and_frame_private_blocks, merge_private_blocks.
+ * Units: shift_and_frame_private_blocks, merge_private_blocks (src/smpi/internals/smpi_shared.cpp);
+ *        smpi_comm_copy_buffer_callback, check_blocks, memcpy_private, smpi_cleanup_comm_after_copy
+ *        (src/smpi/internals/smpi_global.cpp).
  * Byte-level specification with a ghost byte offset gb:
  *   shift(vec, offset, size): for gb < size:  gb is in a result block  <=>  gb + offset is in a block of vec
  *   merge(src, dst):          gb is in a result block  <=>  gb is in a block of src and in a block of dst
- * and the result blocks are non-empty, ordered, disjoint (and inside [0,size] for shift).
+ *   check_blocks(l, size):    aborts iff a block of l is reversed or ends after size
+ *   memcpy_private(d, s, l):  d[gb] = s[gb] if gb is in a block of l, else d[gb] unchanged
+ *   callback(comm, buff, size): for gb < size: the receive buffer's byte gb becomes the send buffer's byte gb iff
+ *        byte gb + (offset of the send buffer in its allocation) is private on the sender side (or the send buffer is
+ *        not shared) AND byte gb + (offset of the receive buffer) is private on the receiver side (or not shared);
+ *        otherwise the receive buffer's byte gb is left alone.
+ * The contracts are stated on the ARGUMENTS (any list object), so that the callback can be checked against the
+ * contracts of shift / merge / check_blocks / memcpy_private, all with the same ghost byte gb.
  * Block lists hold at most CAP blocks (model bound), loops unwound accordingly.                                    */
 #include "gen.h"
 #ifndef CAP
 #define CAP 3
 #endif
+#ifndef NB
+#define NB 8 /* bytes of the message buffers of the copy harnesses (real memory; block arithmetic is not bounded by it) */
+#endif
 #define BIG (1UL << 40) /* offsets and sizes below 2^40 bytes: keeps gb + offset from wrapping in the SPEC */
 typedef struct vf_pair_unsigned_long__unsigned_long blk_t;
 typedef struct vf_seq_vf_pair_unsigned_long__unsigned_long seq_t;
+typedef unsigned char byte_t;
 
 blk_t g_v1[CAP], g_v2[CAP];
 seq_t g_s1, g_s2;
 size_t gb; /* ghost byte */
 
-#define ANY3(P) (P(0) || P(1) || P(2))
-#define ALL3(P) (P(0) && P(1) && P(2))
-#define ALL6(P) (P(0) && P(1) && P(2) && P(3) && P(4) && P(5))
-#define IN_BLK(a, n, k, x) ((k) < (n) && (a)[k].first <= (x) && (x) < (a)[k].second)
-#define IN1(k) IN_BLK(g_v1, g_s1.n, k, XX)
-#define IN2(k) IN_BLK(g_v2, g_s2.n, k, XX)
-#define INR(k) IN_BLK(__CPROVER_return_value.d, __CPROVER_return_value.n, k, XX)
-#define ANY6(P) (P(0) || P(1) || P(2) || P(3) || P(4) || P(5))
-/* a block list as smpi_shared_malloc builds it: non-empty blocks, ordered, disjoint */
-#define WF_BLK(a, n, k) (!((k) < (n)) || ((a)[k].first < (a)[k].second && (a)[k].second <= BIG &&                       \
-                                          (!((k) + 1 < (n)) || (a)[k].second <= (a)[(k) + 1].first)))
-#define WF1(k) WF_BLK(g_v1, g_s1.n, k)
-#define WF2(k) WF_BLK(g_v2, g_s2.n, k)
-#define WFR(k) WF_BLK(__CPROVER_return_value.d, __CPROVER_return_value.n, k)
-#define SEQ_IS(s, arr) ((s).d == (arr) && (s).h == 0 && (s).n <= CAP && (s).cap == CAP)
-#define RET_OK (__CPROVER_return_value.h == 0 && __CPROVER_return_value.n <= 2 * CAP && vf_exc == 0)
+/* Predicates over block lists, as functions: each block is loaded ONCE into a local (an absent block reads as the empty
+ * block [0,0)), so that the pointer checks of a contract clause do not multiply with the size of the formula. */
+static inline blk_t blk_at(const blk_t* a, size_t len, size_t k)
+{
+  blk_t z = {0, 0};
+  if (k < len)
+    return a[k];
+  return z;
+}
+#define IN_B(b, x) ((b).first <= (x) && (x) < (b).second)
+/* byte x lies in one of the first 3 (resp. 6) blocks of the list */
+static inline _Bool in_list3(const blk_t* a, size_t len, size_t x)
+{
+  blk_t b0 = blk_at(a, len, 0), b1 = blk_at(a, len, 1), b2 = blk_at(a, len, 2);
+  return IN_B(b0, x) || IN_B(b1, x) || IN_B(b2, x);
+}
+static inline _Bool in_list6(const blk_t* a, size_t len, size_t x)
+{
+  blk_t b0 = blk_at(a, len, 0), b1 = blk_at(a, len, 1), b2 = blk_at(a, len, 2), b3 = blk_at(a, len, 3),
+        b4 = blk_at(a, len, 4), b5 = blk_at(a, len, 5);
+  return IN_B(b0, x) || IN_B(b1, x) || IN_B(b2, x) || IN_B(b3, x) || IN_B(b4, x) || IN_B(b5, x);
+}
+/* a block list as smpi_shared_malloc builds it: non-empty blocks, ordered, disjoint (bounds below BIG) */
+#define WF_B(k, b, nxt) (!((k) < len) || ((b).first < (b).second && (b).second <= BIG && (!((k) + 1 < len) || (b).second <= (nxt).first)))
+static inline _Bool wf_list3(const blk_t* a, size_t len)
+{
+  blk_t b0 = blk_at(a, len, 0), b1 = blk_at(a, len, 1), b2 = blk_at(a, len, 2);
+  return WF_B(0, b0, b1) && WF_B(1, b1, b2) && WF_B(2, b2, b2);
+}
+static inline _Bool wf_list6(const blk_t* a, size_t len)
+{
+  blk_t b0 = blk_at(a, len, 0), b1 = blk_at(a, len, 1), b2 = blk_at(a, len, 2), b3 = blk_at(a, len, 3),
+        b4 = blk_at(a, len, 4), b5 = blk_at(a, len, 5);
+  return WF_B(0, b0, b1) && WF_B(1, b1, b2) && WF_B(2, b2, b3) && WF_B(3, b3, b4) && WF_B(4, b4, b5) && WF_B(5, b5, b5);
+}
+/* every block (of at most 6) has begin <= end <= size: what check_blocks asserts */
+#define FRAMED_B(b) ((b).first <= (b).second && (b).second <= size)
+static inline _Bool framed_list6(const blk_t* a, size_t len, size_t size)
+{
+  blk_t b0 = blk_at(a, len, 0), b1 = blk_at(a, len, 1), b2 = blk_at(a, len, 2), b3 = blk_at(a, len, 3),
+        b4 = blk_at(a, len, 4), b5 = blk_at(a, len, 5);
+  return FRAMED_B(b0) && FRAMED_B(b1) && FRAMED_B(b2) && FRAMED_B(b3) && FRAMED_B(b4) && FRAMED_B(b5);
+}
+/* every block of r (at most 6) lies inside one block of s (at most 3) */
+#define SUB_B(r, s) ((s).first <= (r).first && (r).second <= (s).second)
+#define SUB3(k, r) (!((k) < rlen) || SUB_B(r, s0) || SUB_B(r, s1) || SUB_B(r, s2))
+static inline _Bool inside_list(const blk_t* r, size_t rlen, const blk_t* s, size_t slen)
+{
+  blk_t r0 = blk_at(r, rlen, 0), r1 = blk_at(r, rlen, 1), r2 = blk_at(r, rlen, 2), r3 = blk_at(r, rlen, 3),
+        r4 = blk_at(r, rlen, 4), r5 = blk_at(r, rlen, 5);
+  blk_t s0 = blk_at(s, slen, 0), s1 = blk_at(s, slen, 1), s2 = blk_at(s, slen, 2);
+  /* an absent block of s is [0,0): it contains no (non-empty) block of r */
+  return SUB3(0, r0) && SUB3(1, r1) && SUB3(2, r2) && SUB3(3, r3) && SUB3(4, r4) && SUB3(5, r5);
+}
+#define RV __CPROVER_return_value
+/* an input list: the vector model with its elements at d[0..n), at most CAP of them */
+#define SEQ_IN(s) ((s)->h == 0 && (s)->n <= CAP)
+/* a result list: a fresh vector (elements d[0..n) in an allocation of VF_CAP slots) */
+#define RET_OK (RV.h == 0 && RV.n <= 2 * CAP && RV.cap == VF_CAP && vf_exc == 0)
+#define RET_FRESH __CPROVER_is_fresh(RV.d, sizeof(blk_t) * VF_CAP)
 
 seq_t shift_and_frame_private_blocks(seq_t* vec, unsigned long offset, unsigned long buff_size)
-    __CPROVER_requires(vec == &g_s1 && SEQ_IS(g_s1, g_v1) && ALL3(WF1) && offset <= BIG && buff_size <= BIG && vf_exc == 0)
+    __CPROVER_requires(SEQ_IN(vec) && wf_list3(vec->d, vec->n) && offset <= BIG && buff_size <= BIG && vf_exc == 0)
     __CPROVER_assigns()
-    __CPROVER_ensures(RET_OK)
-#define XX gb
-    __CPROVER_ensures(!(gb < buff_size) || (ANY6(INR) ==
-#undef XX
-#define XX (gb + offset)
-                                             ANY3(IN1))) /*@ shift_keeps_exactly_the_private_bytes_of_the_message */
-#undef XX
-    __CPROVER_ensures(ALL6(WFR)) /*@ shift_result_blocks_non_empty_ordered_disjoint */
-#define IN_FRAME(k) (!((k) < __CPROVER_return_value.n) || __CPROVER_return_value.d[k].second <= buff_size)
-    __CPROVER_ensures(ALL6(IN_FRAME)) /*@ shift_result_inside_the_message */;
+    __CPROVER_ensures(RET_FRESH)
+    __CPROVER_ensures(RET_OK && RV.n <= vec->n)
+    __CPROVER_ensures(!(gb < buff_size) || (in_list6(RV.d, RV.n, gb) == in_list3(vec->d, vec->n, gb + offset)))
+    /*@ shift_keeps_exactly_the_private_bytes_of_the_message */
+    __CPROVER_ensures(wf_list6(RV.d, RV.n)) /*@ shift_result_blocks_non_empty_ordered_disjoint */
+    __CPROVER_ensures(framed_list6(RV.d, RV.n, buff_size)) /*@ shift_result_inside_the_message */;
 
 seq_t merge_private_blocks(seq_t* src, seq_t* dst)
-    __CPROVER_requires(src == &g_s1 && dst == &g_s2 && SEQ_IS(g_s1, g_v1) && SEQ_IS(g_s2, g_v2) && ALL3(WF1) && ALL3(WF2) &&
-                       vf_exc == 0)
+    __CPROVER_requires(SEQ_IN(src) && SEQ_IN(dst) && wf_list3(src->d, src->n) && wf_list3(dst->d, dst->n) && vf_exc == 0)
     __CPROVER_assigns()
+    __CPROVER_ensures(RET_FRESH)
     __CPROVER_ensures(RET_OK)
-#define XX gb
-    __CPROVER_ensures(ANY6(INR) == (ANY3(IN1) && ANY3(IN2))) /*@ merge_is_the_byte_wise_intersection */
-#undef XX
-    __CPROVER_ensures(ALL6(WFR)) /*@ merge_result_blocks_non_empty_ordered_disjoint */;
+    __CPROVER_ensures(in_list6(RV.d, RV.n, gb) == (in_list3(src->d, src->n, gb) && in_list3(dst->d, dst->n, gb)))
+    /*@ merge_is_the_byte_wise_intersection */
+    __CPROVER_ensures(wf_list6(RV.d, RV.n)) /*@ merge_result_blocks_non_empty_ordered_disjoint */
+    __CPROVER_ensures(inside_list(RV.d, RV.n, src->d, src->n)) /*@ merge_result_blocks_inside_a_source_block */;
+
+/* check_blocks: xbt_assert on every block (begin <= end <= size); a list of at most VF_CAP blocks */
+#define SEQ_ANY(s) ((s)->h == 0 && (s)->n <= VF_CAP)
+void check_blocks(seq_t* private_blocks, unsigned long buff_size)
+    __CPROVER_requires(SEQ_ANY(private_blocks) && vf_exc == 0)
+    __CPROVER_assigns(vf_exc)
+    __CPROVER_ensures(vf_exc == 0 || vf_exc == VF_EXC_ABORT)
+    __CPROVER_ensures((vf_exc == 0) == framed_list6(private_blocks->d, private_blocks->n, buff_size))
+    /*@ check_blocks_aborts_iff_a_block_leaves_the_message */;
+
+/* memcpy_private on real memory: both buffers hold g_sz bytes (ghost, the message size), every block inside */
+size_t g_sz;
+void memcpy_private(void* dest, void* src, seq_t* private_blocks)
+    __CPROVER_requires(SEQ_ANY(private_blocks) && framed_list6(private_blocks->d, private_blocks->n, g_sz) && vf_exc == 0 &&
+                       0 < g_sz && g_sz <= NB && gb < g_sz)
+    __CPROVER_requires(__CPROVER_w_ok(dest, g_sz) && __CPROVER_r_ok(src, g_sz) && !__CPROVER_same_object(dest, src))
+    __CPROVER_assigns(__CPROVER_object_upto(dest, g_sz))
+    __CPROVER_ensures(vf_exc == 0)
+    __CPROVER_ensures(!in_list6(private_blocks->d, private_blocks->n, gb) || ((byte_t*)dest)[gb] == __CPROVER_old(((byte_t*)src)[gb]))
+    /*@ memcpy_private_copies_every_byte_of_a_block */
+    __CPROVER_ensures(in_list6(private_blocks->d, private_blocks->n, gb) || ((byte_t*)dest)[gb] == __CPROVER_old(((byte_t*)dest)[gb]))
+    /*@ memcpy_private_leaves_bytes_outside_the_blocks */;
+
+/* ---------------- the copy callback --------------------------------------------------------------------------------- */
+struct CommImpl g_comm;
+struct ActorImpl g_src_actor, g_dst_actor;
+struct Actor g_iface;
+byte_t* g_buff; /* the send buffer handed to the callback (malloc'ed by the harness: a detached send frees it) */
+byte_t g_dst[NB]; /* the receive buffer */
+/* what smpi_is_shared answers for the two buffers (ghost description of the allocation metadata): shared or not, the
+ * private blocks of the allocation (g_v1 / g_s1.n for the send buffer, g_v2 / g_s2.n for the receive buffer), and the
+ * offset of the buffer inside its allocation */
+_Bool g_shared1, g_shared2;
+size_t g_off1, g_off2;
+
+void smpi_cleanup_comm_after_copy(struct CommImpl* comm, void* buff)
+    __CPROVER_requires(comm == &g_comm && vf_exc == 0 && (!g_comm.__b_ActivityImpl_T_CommImpl.__b_ActivityImpl.detached_ || __CPROVER_is_freeable(buff)))
+    __CPROVER_assigns(g_comm.src_buff_)
+    __CPROVER_frees(buff)
+    __CPROVER_ensures(vf_exc == 0)
+    __CPROVER_ensures(g_comm.__b_ActivityImpl_T_CommImpl.__b_ActivityImpl.detached_
+                          ? g_comm.src_buff_ == NULL
+                          : g_comm.src_buff_ == __CPROVER_old(g_comm.src_buff_))
+    /*@ cleanup_frees_the_duplicated_buffer_of_a_detached_send_only */;
+
+/* ASSUMED (callees outside the property): privatisation switch, actor interface, allocation */
+_Bool smpi_switch_data_segment(struct Actor* actor, void* addr)
+    __CPROVER_requires(1) __CPROVER_assigns() __CPROVER_ensures(vf_exc == 0);
+struct Actor* ActorImpl__get_iface(struct ActorImpl* self)
+    __CPROVER_requires(self == &g_src_actor || self == &g_dst_actor) __CPROVER_assigns()
+    __CPROVER_ensures(__CPROVER_return_value == &g_iface && vf_exc == 0);
+void* xbt_malloc(size_t n)
+    __CPROVER_requires(n <= NB) __CPROVER_assigns()
+    __CPROVER_ensures(__CPROVER_is_fresh(__CPROVER_return_value, n) && vf_exc == 0);
+
+#define SRC_PRIVATE (!g_shared1 || in_list3(g_v1, g_s1.n, gb + g_off1))
+#define DST_PRIVATE (!g_shared2 || in_list3(g_v2, g_s2.n, gb + g_off2))
+void smpi_comm_copy_buffer_callback(struct CommImpl* comm, void* buff, unsigned long buff_size)
+    __CPROVER_requires(comm == &g_comm && buff == g_buff && g_comm.dst_buff_ == g_dst && vf_exc == 0)
+    __CPROVER_requires(__CPROVER_is_freeable(buff) && __CPROVER_r_ok(buff, NB))
+    /* CommImpl::copy_data calls the callback for non-empty messages only */
+    __CPROVER_requires(0 < buff_size && buff_size <= NB && g_sz == buff_size && gb < buff_size)
+    __CPROVER_requires(g_s1.n <= CAP && g_s2.n <= CAP && wf_list3(g_v1, g_s1.n) && wf_list3(g_v2, g_s2.n) && g_off1 <= BIG && g_off2 <= BIG)
+    __CPROVER_assigns(vf_exc, g_comm.src_buff_, __CPROVER_object_whole(g_dst))
+    __CPROVER_frees(buff)
+    __CPROVER_ensures(vf_exc == 0) /*@ callback_does_not_abort_on_well_formed_metadata */
+    __CPROVER_ensures(!(SRC_PRIVATE && DST_PRIVATE) || g_dst[gb] == __CPROVER_old(g_buff[gb]))
+    /*@ every_byte_private_in_both_buffers_is_copied */
+    __CPROVER_ensures((SRC_PRIVATE && DST_PRIVATE) || g_dst[gb] == __CPROVER_old(g_dst[gb]))
+    /*@ bytes_of_a_shared_region_are_left_alone */;
+
+/* STUB (assumed): smpi_is_shared answers from the ghost description: the metadata lookup itself is not verified.
+ * Like the real function it clears the list first, and hands out a COPY of the allocation's block list. */
+int smpi_is_shared(void* ptr, seq_t* private_blocks, size_t* offset)
+{
+  private_blocks->n = 0;
+  if (ptr == (void*)g_buff) {
+    if (!g_shared1)
+      return 0;
+    for (size_t k = 0; k < CAP; k++)
+      private_blocks->d[k] = g_v1[k];
+    private_blocks->n = g_s1.n;
+    *offset           = g_off1;
+    return 1;
+  }
+  if (!g_shared2)
+    return 0;
+  for (size_t k = 0; k < CAP; k++)
+    private_blocks->d[k] = g_v2[k];
+  private_blocks->n = g_s2.n;
+  *offset           = g_off2;
+  return 1;
+}
 
 #include "gen.c"
 
 size_t nondet_size(void);
+_Bool nondet_bool(void);
 static void setup(void)
 {
   g_s1.d = g_v1;
@@ -85,6 +232,59 @@ void harness(void)
 {
   setup();
   merge_private_blocks(&g_s1, &g_s2);
+  VF_CANARY_POINT;
+}
+#endif
+#ifdef H_check_blocks
+blk_t g_v6[VF_CAP];
+seq_t g_s6;
+void harness(void)
+{
+  vf_exc   = 0;
+  g_s6.d   = g_v6;
+  g_s6.h   = 0;
+  g_s6.cap = VF_CAP;
+  check_blocks(&g_s6, nondet_size());
+  VF_CANARY_POINT;
+}
+#endif
+#ifdef H_memcpy_private
+blk_t g_v6[VF_CAP];
+seq_t g_s6;
+byte_t g_src[NB];
+void harness(void)
+{
+  vf_exc   = 0;
+  g_s6.d   = g_v6;
+  g_s6.h   = 0;
+  g_s6.cap = VF_CAP;
+  memcpy_private(g_dst, g_src, &g_s6);
+  VF_CANARY_POINT;
+}
+#endif
+#ifdef H_cleanup
+void harness(void)
+{
+  vf_exc = 0;
+  g_buff = malloc(NB);
+  __CPROVER_assume(g_buff != NULL);
+  smpi_cleanup_comm_after_copy(&g_comm, g_buff);
+  VF_CANARY_POINT;
+}
+#endif
+#ifdef H_copy
+/* the four cases (send buffer shared or not) x (receive buffer shared or not) are all covered: g_shared1 / g_shared2
+ * are unconstrained; so are the block lists (at most CAP blocks each), the two offsets and the message size (1..NB) */
+void harness(void)
+{
+  setup();
+  g_buff = malloc(NB);
+  __CPROVER_assume(g_buff != NULL);
+  g_comm.dst_buff_  = g_dst;
+  g_comm.src_buff_  = g_buff;
+  g_comm.src_actor_ = &g_src_actor;
+  g_comm.dst_actor_ = &g_dst_actor;
+  smpi_comm_copy_buffer_callback(&g_comm, g_buff, nondet_size());
   VF_CANARY_POINT;
 }
 #endif
